@@ -82,6 +82,7 @@ func scores(args []string) {
 		}
 		w.Emit(out.M{"op": "row", "a": proj.ScoreOf(a), "neg": proj.ScoreOf(a.Negate()),
 			"inc": proj.ScoreOf(eval.IncrementMateDistance(a)), "incdom": proj.B2I(incDom(a)), "md": md,
+			"dec": proj.ScoreOf(eval.DecrementMateDistance(a)), "incdec": proj.ScoreOf(eval.DecrementMateDistance(eval.IncrementMateDistance(a))),
 			"bs": bs, "less": less, "greater": greater, "max": maxs, "min": mins,
 			"negless": negless, "incless": incless, "incdomb": incdomb})
 	}
